@@ -65,6 +65,35 @@ def units(rng, n):
                 out.append(("long-identifier-xml", [Step("parse_doc", 0, "xml_buffer", 1, 1, xmlgen.simple_model(decl="int %s;" % lid))]))
             continue
         r = (r - 0.10) / 0.90
+        if rng.random() < 0.12:
+            x = rng.random()
+            if x < 0.3:
+                # not well-formed XML of several kinds (each leaves its own trace in the XML library's error state)
+                base = xmlgen.simple_model(decl="int a;")
+                bad = rng.choice([base[:rng.randint(60, len(base) - 10)], base.replace("</declaration>", "&nosuch;</declaration>", 1),
+                                  base.replace("</template>", "</templat>", 1), base.replace("<nta>", "<nta><nta", 1),
+                                  base + "<trailing>", "<nta><declaration>int x;</declaration>", "<?xml version=\"1.0\"?>", "not xml at all",
+                                  base.replace("int a;", "int a; <", 1), base.replace('id="id0"', 'id="id0', 1)])
+                out.append(("xml-not-well-formed", [Step("parse_doc", 0, rng.choice(["xml_buffer", "xml_file", "xml_fd"]), 1, 1, bad)]))
+            elif x < 0.6:
+                # well-formed XML that is not a complete model: the reader runs out of elements
+                bad = rng.choice(["<nta><declaration>int x;</declaration></nta>", "<nta></nta>", "<nta/>",
+                                  "<nta><declaration>int x;</declaration><template><name>T</name><location id=\"id0\"/><init ref=\"id0\"/></template></nta>",
+                                  "<nta><declaration>int x;</declaration><template><name>T</name></template></nta>",
+                                  "<?xml version=\"1.0\" encoding=\"utf-8\"?><nta><declaration/></nta>", "<model/>",
+                                  "<nta><declaration>int x;</declaration><system>system T;</system></nta>"])
+                out.append(("xml-incomplete", [Step("parse_doc", 0, rng.choice(["xml_buffer", "xml_file", "xml_fd"]), 1, 1, bad)]))
+            else:
+                # characters the scanner does not know, alone and in runs (inside and outside the parser's recovery window)
+                g = "".join(rng.choice("@@@`$\\~") for _ in range(rng.randint(1, 3)))
+                text = rng.choice(["int y = 3 %s 4;", "int y = 3 %s;", "int y; %s", "%s int y;", "int y = 3 %s 4 %s 5;", "void f() { int z = 1 %s 2; }",
+                                   "int y = (3 %s", "int y = 3 +%s+ 4; int w = ;"]).replace("%s", g)
+                if rng.random() < 0.6:
+                    out.append(("unknown-characters", [Step("part", 0, 1, rng.choice(["S_DECLARATION", "S_XTA", "S_EXPRESSION", "S_GUARD", "S_ASSIGN"]),
+                                                            rng.choice(["doc", "expr", "pretty"]), text)]))
+                else:
+                    out.append(("unknown-characters", [Step("parse_doc", 0, "xml_buffer", 1, 1, xmlgen.simple_model(decl=text.replace("<", "&lt;")))]))
+            continue
         if r < 0.18:
             out.append(("xml-valid", [Step("parse_doc", 0, rng.choice(["xml_buffer", "xml_file", "xml_fd"]), 1, 1, GM.render_xml(m, rng))]))
         elif r < 0.30:
@@ -147,6 +176,7 @@ def run(rep, tier, seed):
             continue
         ok_units.append(i)
     n_seq = 3000 if quick else 30000
+    lexical_units = [i for i in ok_units if pool[i][0] in ("unknown-characters", "exception-or-open-comment", "pretty-error", "abandoned-declarator")]
     # documents that stay alive while other documents are built: a query call on an older document is a call like any
     # other and must give what it gives when it directly follows the building of its document in a fresh process
     held = []
@@ -155,6 +185,8 @@ def run(rep, tier, seed):
         big = rng.random() < 0.5
         xml = GM.render_xml(m, rng) if not big else GM.render_xml(GM.ModelGen(rng, 6, 10, 20).model(), rng)
         qs = ["E<> g0 >= 0", "A[] not deadlock", "E<> g0 > 100 || N == 0", "A[] g0 + ", "E<> nosuch > 1"][:rng.randint(2, 5)]
+        if rng.random() < 0.5:
+            qs = list(reversed(qs))      # a faulty query first
         hc = Case("h%d" % k, [Step("parse_doc", 2, "xml_buffer", 1, 0, xml), Step("query", 2, "", *qs)], timeout=60)
         held.append((xml, qs, hc))
     hres = run_cases([hc for _, _, hc in held])
@@ -170,18 +202,21 @@ def run(rep, tier, seed):
             seeded = rng.choice([2 ** 31 - rng.randint(1, 4000), 2 ** 32 - rng.randint(1, 4000), 2 ** 31 - 1, 2 ** 31, 2 ** 32 - 2,
                                  2 ** 31 - rng.randint(1, 60), 2 ** 32 - rng.randint(1, 60)])
             steps.append(Step("tracker", seeded))
-        hold = rng.choice(held) if held and seeded is None and rng.random() < 0.3 else None
+        hold = rng.choice(held) if held and seeded is None and rng.random() < 0.4 else None
         if hold:
             steps.append(Step("parse_doc", 2, "xml_buffer", 1, 0, hold[0]))
-        for i in idx:
+        hq = None
+        hpos = rng.randint(0, length - 1) if hold else None     # the older document is queried after this unit
+        if hold and lexical_units and rng.random() < 0.4:
+            idx[hpos] = rng.choice(lexical_units)               # ... often one that ended inside the scanner's error handling
+        for pos, i in enumerate(idx):
             steps.append(Step("drop", 0))
             start = len(steps)
             steps += pool[i][1]
             bounds.append((i, start, len(steps)))
-        hq = None
-        if hold:
-            hq = len(steps)
-            steps.append(Step("query", 2, "", *hold[1]))
+            if hold and pos == hpos:
+                hq = len(steps)
+                steps.append(Step("query", 2, "", *hold[1]))
         seqs.append((idx, bounds, seeded, Case("q%d" % k, steps, timeout=120), hold, hq))
     sres = run_cases([c for _, _, _, c, _, _ in seqs])
     compared = 0
